@@ -70,11 +70,23 @@ def roundtrip_case(ctx, rng, wd, i):
     if rng.random() < 0.3:
         ts[0] = 0
     text, truth = [], []
+    # history: the caller keeps ONE box object (array or nested list) for the whole trajectory and updates it in place before each
+    # frame is written (an NPT / deforming run): every header must carry the bounds the object holds at the time of the call
+    shared = None
+    if rng.random() < 0.4:
+        shared = np.zeros((d, 2)) if rng.random() < 0.6 else [[0.0, 0.0] for _ in range(d)]
     for k in range(nframes):
         bounds, okind = gen_bounds(rng, d)
         as_list = rng.random() < 0.3
-        ok, hdr = ctx.call("write_dump_header", write_dump_header, int(ts[k]), N, bounds.tolist() if as_list else bounds, addson,
-                           data={"timestep": int(ts[k]), "N": N, "bounds": bounds, "addson": addson})
+        if shared is None:
+            barg = bounds.tolist() if as_list else bounds
+        else:
+            for a_ in range(d):
+                shared[a_][0], shared[a_][1] = float(bounds[a_, 0]), float(bounds[a_, 1])
+            barg = shared
+            ctx.count("box_object_updated_in_place")
+        ok, hdr = ctx.call("write_dump_header", write_dump_header, int(ts[k]), N, barg, addson,
+                           data={"timestep": int(ts[k]), "N": N, "bounds": bounds, "addson": addson, "same_box_object_updated_in_place": shared is not None})
         if not ok:
             return
         if not ctx.check("roundtrip_header", isinstance(hdr, str) and hdr.endswith("\n"), "write_dump_header/type", "header is not a newline-terminated string"):
@@ -173,13 +185,22 @@ def roundtrip_case(ctx, rng, wd, i):
 
 
 # ------------------------------------------------------------------ data header
+DATA_BOX = {}
+
+
 def data_header_case(ctx, rng):
     from PyMatterSim.writer.lammps_writer import write_data_header
     d = int(rng.choice([2, 3]))
     N = int(rng.integers(1, 10 ** int(rng.integers(1, 7))))
     K = int(rng.integers(1, 9))
     bounds, _ = gen_bounds(rng, d)
-    ok, h = ctx.call("write_data_header", write_data_header, N, K, bounds if rng.random() < 0.7 else bounds.tolist(),
+    barg = bounds if rng.random() < 0.7 else bounds.tolist()
+    if rng.random() < 0.4:
+        # the caller's long-lived box array of this dimension, updated in place since the last header was written
+        barg = DATA_BOX.setdefault(d, np.zeros((d, 2)))
+        barg[:] = bounds
+        ctx.count("box_object_updated_in_place")
+    ok, h = ctx.call("write_data_header", write_data_header, N, K, barg,
                      data={"N": N, "K": K, "bounds": bounds})
     ctx.case(f"data_header/{d}D", N, K, bounds, nontrivial=True, sample={"N": N, "K": K, "bounds": bounds})
     if not ok:
